@@ -1411,3 +1411,25 @@ Proof.
   - apply in_map_iff in Ha. destruct Ha as (r & <- & Hr). destruct (B1 r Hr) as (U & N).
     apply A2; [now apply Hup|]. intros y Hy. apply (N y). now apply HR.
 Qed.
+
+(* ------------------------------------------------------------------ plain descriptors
+   A store that serves predecessors as plain descriptors (media type, digest, size only -- what a
+   reloaded OCI layout does since fix fda86b1) satisfies served_ok outright: every filter fetches
+   and judges the manifest itself. *)
+Definition plain_desc (p : desc) : Prop := d_at p = [] /\ d_ann p = None.
+
+Lemma plain_served_ok s p : s_lister s = false -> plain_desc p -> served_ok s p.
+Proof.
+  intros Hl (Ha & Hn). split.
+  - split; [left; exact Ha | now rewrite Hn].
+  - rewrite Hl. discriminate.
+Qed.
+
+Lemma find_preds_exact_plain s fs x :
+  s_lister s = false -> Forall plain_desc (s_preds s x) ->
+  map d_id (find_preds s fs x) =
+  List.filter (fun id => forallb (fun f => keep_spec s f id) fs) (map d_id (s_preds s x)).
+Proof.
+  intros Hl H. apply find_preds_exact. eapply Forall_impl; [|exact H].
+  intros p Hp. now apply plain_served_ok.
+Qed.
